@@ -44,6 +44,13 @@ def check(run):
             run.violation(sig(ev), {"kind": "inplace", "event": ev, "occurrences_in_run": n, **conc})
         else:
             run.note_drift("event not explained by InPlace.tla but owned by another property: " + sig(ev))
+    # scale: thousands of artifacts, failures late in the run
+    levents = ie.large_document_events(run, 2100 if quick else 4200, 24 if quick else 96)
+    for ev, n, conc in ie.judge(run, levents):
+        if owns_c18(ev):
+            run.violation("large document: " + sig(ev), {"kind": "inplace_large", "event": ev, **conc})
+        else:
+            run.note_drift("large-document event not explained by InPlace.tla but owned by another property: " + sig(ev))
     run._distinct.update("site%d" % i for i in range(run.extra.get("fault_sites", 0)))
     run.exhaustive = True
     run.assumptions.append("faults are injected at Python line events; code inside C extensions (the ed25519 signer, file write) is atomic for the injector")
